@@ -194,8 +194,10 @@ def _prune_cache(cache_root, keep, max_dirs=10):
             return
         ds.sort(key=lambda d: os.path.getmtime(os.path.join(cache_root, d)))
         import shutil
+        now = time.time()
         for d in ds[:-max_dirs]:
-            if d != keep:
+            # never remove a directory another concurrent check may still be loading from
+            if d != keep and now - os.path.getmtime(os.path.join(cache_root, d)) > 1800:
                 shutil.rmtree(os.path.join(cache_root, d), ignore_errors=True)
     except OSError:
         pass
